@@ -410,6 +410,38 @@ def string_spot(i: int, j: int) -> bool:
     return done()
 
 
+def after_failure(which: int, v: int) -> bool:
+    """
+    pre: 0 <= which < 4
+    pre: 0 <= v < 256
+    post: __return__
+    """
+    # an encode that is rejected part-way (element out of range / wrong Python type / unknown codec below a container), then a
+    # valid encode on the SAME serializer (AuxData.serializer is process-wide): the second must be exactly its own bytes
+    w = pick(which, 4)
+    ser = gtirb.AuxData.serializer
+    bad = [([1, 2, 300], "sequence<uint8_t>"), ((1, "x"), "tuple<uint8_t,uint8_t>"), ({"k": [1, None]}, "mapping<string,sequence<int8_t>>"),
+           ([1, 2], "sequence<nosuchcodec>")][w]
+    with untraced():
+        out = chpatch.make_stream()
+        failed = False
+        try:
+            ser.encode(out, bad[0], bad[1])
+        except Exception:  # noqa: BLE001
+            failed = True
+    if not failed:
+        return fail("an unencodable value was accepted")
+    out2 = chpatch.make_stream()
+    ser.encode(out2, [v, 7], "sequence<uint8_t>")
+    raw = out2.getvalue()
+    if len(raw) != 10 or not _u64_is(raw, 0, 2) or raw[8] != v or raw[9] != 7:
+        return fail("bytes of a valid value encoded after a rejected one are not its own encoding")
+    back = ser.decode(raw, "sequence<uint8_t>")
+    if not (len(back) == 2 and back[0] == v and back[1] == 7):
+        return fail("round trip after a rejected encode")
+    return done()
+
+
 def zero_spot(which: int) -> bool:
     """
     pre: 0 <= which < 4
